@@ -39,6 +39,11 @@ pub struct Case {
     pub pre: Vec<DocSpec>,
     pub ops: Vec<COp>,
     pub schedule: Vec<u16>,
+    /// the operations run on a handle reopened after the pre-population (cold read cache), and
+    /// the backend reads of the reader operations (Get / QueryAge) are decision points of their
+    /// own: a read may land before a writer's put and be delivered after it
+    #[serde(default)]
+    pub cold: bool,
 }
 
 pub fn idx_c05() -> IndexSet {
@@ -73,7 +78,7 @@ fn cop_strategy() -> impl Strategy<Value = COp> {
 }
 
 pub fn case_strategy(max_ops: usize) -> impl Strategy<Value = Case> {
-    (prop::collection::vec(small_spec(), 1..4), prop::collection::vec(cop_strategy(), 2..=max_ops), prop::collection::vec(any::<u16>(), 0..160)).prop_map(|(pre, ops, schedule)| Case { pre, ops, schedule })
+    (prop::collection::vec(small_spec(), 1..4), prop::collection::vec(cop_strategy(), 2..=max_ops), prop::collection::vec(any::<u16>(), 0..160), any::<bool>()).prop_map(|(pre, ops, schedule, cold)| Case { pre, ops, schedule, cold })
 }
 
 /// What an operation returned.
@@ -268,6 +273,7 @@ pub fn execute_with(case: &Case, ch: &mut Chooser, fail_release: Option<u64>, cr
         let hub = Hub::new();
         let store: Arc<dyn ObjectStore> = Arc::new(ParkStore::new(mem.clone(), hub.clone()));
         let idx = idx_c05();
+        let store2 = store.clone();
         let db = connect(store, false).await.map_err(|e| format!("connect: {e}"))?;
         let col = open(&db, &idx).await.map_err(|e| format!("open: {e}"))?;
         let mut pre = SeqState::default();
@@ -280,6 +286,17 @@ pub fn execute_with(case: &Case, ch: &mut Chooser, fail_release: Option<u64>, cr
             pre.docs.insert(id, f);
         }
         col.flush(anda_db::unix_ms()).await.map_err(|e| format!("pre flush: {e}"))?;
+        let (db, col) = if case.cold {
+            drop(col);
+            db.close().await.map_err(|e| format!("pre close: {e}"))?;
+            let db2 = connect(store2.clone(), false).await.map_err(|e| format!("reconnect: {e}"))?;
+            let col2 = open(&db2, &idx).await.map_err(|e| format!("reopen: {e}"))?;
+            hub.set_read_tasks(case.ops.iter().enumerate().filter(|(_, o)| !is_mutation(o)).map(|(i, _)| i as u32).collect());
+            (db2, col2)
+        } else {
+            (db, col)
+        };
+        let _ = &db;
         hub.set_enabled(true);
         let n = case.ops.len();
         let done = Arc::new(AtomicU64::new(0));
@@ -580,7 +597,16 @@ fn pair_shapes() -> Vec<Case> {
         (COp::Remove { id: 0 }, COp::Add(d(0, 3))), // add the name the removed document holds
         (upage(2, 0), COp::QueryAge { age: 0 }),
     ];
-    pairs.into_iter().map(|(a, b)| Case { pre: pre.clone(), ops: vec![a, b], schedule: vec![] }).collect()
+    let mut out: Vec<Case> = pairs.iter().cloned().map(|(a, b)| Case { pre: pre.clone(), ops: vec![a, b], schedule: vec![], cold: false }).collect();
+    // the reader sets again on a reopened handle (cold cache) with the reader's backend reads as
+    // decision points (seeded change C05-2: a read that lands before a writer's put and is
+    // delivered after it must not be cached as current)
+    for (a, b) in pairs {
+        if !is_mutation(&a) || !is_mutation(&b) {
+            out.push(Case { pre: pre.clone(), ops: vec![a, b], schedule: vec![], cold: true });
+        }
+    }
+    out
 }
 
 pub fn run(r: &mut Runner) {
@@ -588,7 +614,7 @@ pub fn run(r: &mut Runner) {
     let budget = r.tier.pick(4000usize, 100_000usize);
     r.sub_enum(
         "pairs_all_interleavings",
-        "17 fixed two-operation sets over a pre-populated, flushed collection (same-document update/update, update/remove, remove/remove, contended unique renames and adds, add / update / remove / extension racing flush, extension pairs, readers overlapping writers, taking a value whose holder is being removed): EVERY release order of their backend mutations (each parks before and after landing, plus a start park per op) is enumerated depth-first. Oracle: Wing-Gong search - some order of the mutating ops, consistent with real-time order per document, reproduces every return value (distinct ids, updates built on earlier ones, exactly one of concurrent removes returns the document, NotFound / AlreadyExists where the order says so) and the final documents and extensions; all indexes agree with the final documents; reads return whole documents some call wrote; the storage as it was when a concurrent flush returned reopens to the state after a prefix of such an order. Non-trivial = the two ops overlapped in real time (both invoked before either responded) and they touch the same document or the same collection-level state",
+        "17 fixed two-operation sets over a pre-populated, flushed collection (same-document update/update, update/remove, remove/remove, contended unique renames and adds, add / update / remove / extension racing flush, extension pairs, readers overlapping writers, taking a value whose holder is being removed), the three reader sets a second time on a reopened handle (cold read cache) with the reader's own backend reads as decision points: EVERY release order of their backend mutations (each parks before and after landing, plus a start park per op) is enumerated depth-first. Oracle: Wing-Gong search - some order of the mutating ops, consistent with real-time order per document, reproduces every return value (distinct ids, updates built on earlier ones, exactly one of concurrent removes returns the document, NotFound / AlreadyExists where the order says so) and the final documents and extensions; all indexes agree with the final documents; reads return whole documents some call wrote; the storage as it was when a concurrent flush returned reopens to the state after a prefix of such an order. Non-trivial = the two ops overlapped in real time (both invoked before either responded) and they touch the same document or the same collection-level state",
         true,
         pair_shapes(),
         move |case, ctx| {
@@ -621,7 +647,7 @@ pub fn run(r: &mut Runner) {
     );
     r.sub(
         "generated_sets",
-        "generated sets of 2-4 operations (add, update of generated field subsets, remove, save/remove extension, flush, get, indexed query) over 1-3 pre-populated documents with a tiny value universe (so same-document and same-unique-value races are the common case), released by a generated schedule; same oracle",
+        "generated sets of 2-4 operations (add, update of generated field subsets, remove, save/remove extension, flush, get, indexed query) over 1-3 pre-populated documents with a tiny value universe (so same-document and same-unique-value races are the common case), released by a generated schedule, half of them on a reopened handle (cold read cache) with the readers' backend reads as decision points; same oracle",
         (60_000, 1_500_000),
         || case_strategy(4),
         run_generated,
